@@ -46,7 +46,7 @@ def gen_address(rng, for_write, files=FILES):
                 return case(f"{t}{f}:{elem}") + "{%d}" % cnt
         return case(f"{t}{f}:{elem}")
     if r < 0.45:
-        t = rng.choice("NB") if for_write else rng.choice("NBL")
+        t = rng.choice("NBL")   # bit reads AND bit writes, also on long files (bits 0..15 of the element's low word)
         return case(f"{t}{rng.choice(FILES[t])}:{elem}/{rng.randrange(16)}")
     if r < 0.60:
         return case(f"B{rng.choice(FILES['B'])}/{rng.choice([0, 1, 15, 16, 17, 31, 32, 255, 256, 4080, 4094, 4095, rng.randrange(4096)])}")
